@@ -120,6 +120,9 @@ def fault_enumeration(ctx):
                         jobs.append((by[(n, kind, "io")], (k, "SHORTERR", 1), None))
                 elif call == "close":
                     jobs.append((by[(n, kind, "io")], (k, "EIO", 0), None))
+                elif call == "ftruncate":   # cutting the old tail off fails: success may not be reported over a longer file
+                    for kindname in ("EIO", "ENOSPC"):
+                        jobs.append((by[(n, kind, "io")], (k, kindname, 0), None))
 
     def one(j):
         sc, plan, pre = j
